@@ -62,6 +62,11 @@ pub trait Part: Sync + Send {
     fn block(&self, _tier: Tier) -> u64 {
         1
     }
+    /// run every plan on a brand-new thread (fresh thread-locals).  Micro-rigs that touch no
+    /// thread-local state (no rand, no HashMap, no select!) may opt out.
+    fn fresh_thread(&self) -> bool {
+        true
+    }
     /// materialise the explicit plan of run `seed` (pure function of its arguments)
     fn gen(&self, seed: u64, tier: Tier) -> Value;
     /// execute a plan (pure function of the plan and the code under test)
@@ -232,7 +237,7 @@ fn unit_body(part: &'static dyn Part, prop: &'static str, tier: Tier, base_seed:
         let plan = part.gen(seed, tier);
         // every run gets a brand-new thread: fresh thread-locals (rand's ThreadRng, std's
         // RandomState keys, futures-util's select! RNG, tokio coop budget …)
-        let res = fresh_thread(part, prop, plan.clone(), false);
+        let res = if part.fresh_thread() { fresh_thread(part, prop, plan.clone(), false) } else { run_guarded(part, prop, &plan, false) };
         match res {
             Err(e) => {
                 u.harness_error = Some(format!("{e} (seed {seed})"));
